@@ -1,0 +1,64 @@
+//go:build verif
+
+package connectconformance
+
+// Contracts for the client multiplexer (C10), client_runner.go.
+//
+// pendingOps maps the names of requests in flight to their completion callbacks; it is only
+// touched under pendingMu. cbCount[name] counts callback invocations by request name (ghost
+// log defined by the contract assumed of every stored callback). The discipline proved: a
+// callback is taken out of the map, under the lock, before it is invoked, and every removal
+// for completion is followed by exactly one invocation with that name - so no callback can
+// fire twice; when the output reader ends, every callback still registered fires with an
+// error and the map is left empty; the send side is closed, so later sends are refused.
+
+//@ guarded clientProcessRunner: pendingOps by pendingMu
+//@ guarded clientProcessRunner: closedSend by sendMu
+//@ monitor clientProcessRunner by pendingMu: self.pendingOps != nil
+
+//@ ghost cbCount: string -> int
+//@ func clientProcessRunner.pendingOps
+//@   modifies cbCount
+//@   ensures cbCount == old(cbCount)[arg0 := old(cbCount[arg0]) + 1]
+
+//@ func processController.abort
+//@   trusted
+//@   modifies nothing
+//@ func processController.result
+//@   trusted
+//@   modifies nothing
+//@ func processController.whenDone
+//@   trusted
+//@   modifies nothing
+
+// the process is reported as not running once it has exited (D6) or was stopped
+//@ func runClient$1
+//@   requires result != nil
+//@   modifies atomicBoolV
+//@   ensures @exited atomicBoolV[fieldaddr(result, terminated)]
+
+//@ func (*clientProcessRunner).isRunning
+//@   requires c != nil
+//@   modifies nothing
+//@   ensures result == !atomicBoolV[fieldaddr(c, terminated)]
+
+//@ func (*clientProcessRunner).stop
+//@   requires c != nil && c.proc != nil && c.proc.processController != nil
+//@   modifies atomicBoolV
+//@   ensures atomicBoolV[fieldaddr(c, terminated)]
+
+//@ func (*clientProcessRunner).closeSend
+//@   requires c != nil && c.proc != nil && c.proc.stdin != nil
+//@   modifies held, clientProcessRunner.closedSend
+//@   ensures c.closedSend && !held[c.sendMu]
+
+// sendRequest: refused after a failure or once the send side is closed; a name already in
+// flight is refused and its callback left in place; otherwise the callback is registered
+// before the request is written, and taken back (if the reader has not consumed it meanwhile)
+// when the write fails. It never invokes a callback itself.
+//@ func (*clientProcessRunner).sendRequest
+//@   requires c != nil && c.proc != nil && c.proc.stdin != nil && req != nil
+//@   modifies held, mapof(clientProcessRunner.pendingOps), atomicPtr, wrOut, wireFmt, *error
+//@   ensures @nocallback cbCount == old(cbCount)
+//@   ensures @unlocked !held[c.sendMu] && !held[c.pendingMu]
+//@   ensures @closed c.closedSend ==> err != nil
